@@ -45,7 +45,12 @@ cat > "$S/overlay.json" <<EOF
 {"Replace": {"$GR/src/runtime/select.go": "$V/overlay/runtime/select.go", "$GR/src/runtime/simhook.go": "$V/overlay/runtime/simhook.go"}}
 EOF
 FLAGS="-tags verif -overlay $S/overlay.json"
-[ -n "$RACE" ] && FLAGS="$FLAGS -race"
-( cd "$S/h" && $GO test -c $FLAGS -o "$OUT" . ) || fail "go test -c"
+if [ -n "$RACE" ]; then
+  # race build: simrt and the harness are NOT instrumented (their shared state is
+  # serialised by the scheduler, whose hand-offs are hidden from the detector)
+  ( cd "$S/h" && $GO test -c $FLAGS -race -gcflags='vsim=-race=false' -gcflags='vsim/...=-race=false' -gcflags='github.com/uber/tchannel-go/simrt=-race=false' -o "$OUT" . ) || fail "go test -c -race"
+else
+  ( cd "$S/h" && $GO test -c $FLAGS -o "$OUT" . ) || fail "go test -c"
+fi
 if [ -n "${VERIF_KEEP_SCRATCH:-}" ]; then trap - EXIT; echo "scratch kept at $S" >&2; fi
 exit 0
